@@ -28,7 +28,8 @@ ASSUMPTIONS = [
     'alignedMalloc theorem hypotheses: ::malloc returned a non-null 8-byte-aligned p (C guarantees alignof(max_align_t)); bytes + max(alignment, 8) does not wrap '
     'and the block [p, p + bytes + max(alignment, 8)) lies below 2^64; alignment is a power of two (the theorem shows (8 | p) cannot be dropped)',
     'log2 (bsrq/bsrl inline asm), countTrailingZeros (__builtin_ctzll), countSetBits (__builtin_popcountll): model = specification (Z.log2, lowest set bit, '
-    'number of set bits); tie = differential only: exhaustive over all non-zero 32-bit inputs natively against reference loops in the harness, plus Coq-judged cases',
+    'number of set bits); tie = differential only: all 2^32-1 non-zero 32-bit inputs (thorough tier; quick tier: every 4th block of 2^16 values) and '
+    '10^8 (quick 2*10^6) structured/random 64-bit inputs natively against reference loops in the harness, plus the Coq-judged cases',
     'x86-64 Linux build (g++ -O1): uintptr_t = uint64_t = unsigned long, kCacheLineSize = 64 (regenerated constant, tie_kCacheLineSize)',
 ]
 
@@ -80,16 +81,16 @@ def gen_values(ctx):
         a = 1 << i
         vals += [a, a - 1, a + 1, M64 ^ a, (a + 63) & M64, (a - 64) & M64]
     pairs = [(i, j) for i in range(64) for j in range(i)]
-    sel = pairs if not q else [(i, i - 1) for i in range(1, 64)] + r.sample(pairs, 260)
+    sel = pairs if not q else [(i, i - 1) for i in range(1, 64)] + r.sample(pairs, 120)
     for i, j in sel:
         a, b = 1 << i, 1 << j
         vals += [a | b, a - b]
         if not q or r.random() < 0.3:
             vals += [(a | b) + 1, (a | b) - 1, M64 ^ (a | b)]
-    for _ in range(250 if q else 60000):
+    for _ in range(150 if q else 6000):
         bits = r.randint(1, 64)
         vals.append(r.getrandbits(bits))
-    for _ in range(60 if q else 5000):      # around multiples of 64 and 32-bit edge
+    for _ in range(60 if q else 1000):      # around multiples of 64 and 32-bit edge
         k = r.getrandbits(r.randint(1, 58))
         vals += [64 * k + r.choice([0, 1, 63]), r.getrandbits(32) | (1 << r.randint(0, 31))]
     seen, out = set(), []
@@ -111,7 +112,7 @@ def gen_am_cases(ctx):
         a = 1 << k
         for off in sorted(set([0, 8, 16, max(8, a - 8), a, a + 8, 2 * a - 8, 3 * a + 24])):
             cases.append((r.choice([0, 2]), off, r.choice(sizes), a))
-    n = 500 if q else 20000
+    n = 400 if q else 6000
     while len(cases) < n:
         k = r.randint(0, 16)
         a = 1 << k
@@ -148,19 +149,31 @@ def correspond(ctx):
     vals = gen_values(ctx)
     ucases = [(fn, v) for v in vals for fn in range(1, 9) if callable_on(fn, v)]
     am = gen_am_cases(ctx)
-    lines = ['u %d %d' % c for c in ucases] + ['am %d %d %d %d' % c for c in am]
-    # native sweeps: every non-zero 32-bit value through all 8 functions; structured + random 64-bit values
-    lines += ['sweep32 %d 1' % dv.NCPU, 'sweep64 %d %d' % (ctx.seed, 2000000 if ctx.quick else 100000000)]
-    rc, txt = dv.sh([exe], inp='\n'.join(lines) + '\n', timeout=1500)
-    outs = [l for l in txt.split('\n') if l.strip()]
-    if rc != 0 or len(outs) != len(lines):
-        k = min(len(outs), len(lines) - 1)
-        ctx.violation('harness h_bitmath died (rc=%d) after %d of %d cases; next case: %s :: %s' % (rc, len(outs), len(lines), lines[k], txt[-300:]),
-                      {'case': lines[k], 'cmd': 'echo "%s" | %s' % (lines[k], exe)})
-        return
+    am = sorted(am, key=lambda c: c[0] & 1)        # intercepted-malloc cases first, real-malloc cases last (separate process)
+    n_am0 = sum(1 for c in am if not c[0] & 1)
+    # native sweeps: every non-zero 32-bit value through all 8 functions (quick: every 4th block of 2^16 values = 2^30 values);
+    # structured + random 64-bit values
+    sweeps = ['sweep32 %d %d' % (dv.NCPU, 4 if ctx.quick else 1), 'sweep64 %d %d' % (ctx.seed, 2000000 if ctx.quick else 100000000)]
+    lines_a = ['u %d %d' % c for c in ucases] + ['am %d %d %d %d' % c for c in am[:n_am0]] + sweeps
+    lines_b = ['am %d %d %d %d' % c for c in am[n_am0:]]
+
+    def run_lines(lines):
+        """one harness process; returns outputs aligned with lines (None where the process died before answering)"""
+        rc, txt = dv.sh([exe], inp='\n'.join(lines) + '\n', timeout=1500)
+        got = [l for l in txt.split('\n') if l.startswith(('u ', 'am ', 'sweep', 'ERROR', 'FATAL'))]
+        if rc != 0 or len(got) != len(lines):
+            k = min(len(got), len(lines) - 1)
+            ctx.violation('harness h_bitmath died (rc=%d) on case "%s" (after %d of %d cases): %s' % (rc, lines[k], len(got), len(lines), txt[-200:].replace('\n', ' ')),
+                          {'case': lines[k], 'cmd': 'echo "%s" | %s' % (lines[k], exe)})
+        return (got + [None] * len(lines))[:len(lines)]
+    outs_a = run_lines(lines_a)
+    outs_b = run_lines(lines_b) if lines_b else []
+    outs = outs_a[:len(ucases) + n_am0] + outs_b + outs_a[len(ucases) + n_am0:]
     # ---- native sweeps
     sweep_cases = []
     for l in outs[len(ucases) + len(am):]:
+        if l is None:
+            continue
         t = l.split()
         ctx.cov.setdefault('native_sweeps', []).append(' '.join(t[:5]))
         ctx.cov['native_sweep_checks'] = ctx.cov.get('native_sweep_checks', 0) + int(t[2])
@@ -172,6 +185,8 @@ def correspond(ctx):
     # ---- unary functions
     judged = []        # (fn, v, out)
     for (fn, v), o in zip(ucases, outs):
+        if o is None:
+            continue
         t = o.split()
         if len(t) != 2 or t[0] != 'u' or t[1] == 'MISMATCH':
             ctx.violation('%s(%d): detail:: and public wrapper disagree / harness error: %s' % (FN[fn], v, o), {'case': [fn, v], 'cmd': u_cmd(exe, fn, v)})
@@ -182,6 +197,8 @@ def correspond(ctx):
     # ---- alignedMalloc
     am_judged = []
     for c, o in zip(am, outs[len(ucases):len(ucases) + len(am)]):
+        if o is None:
+            continue
         t = o.split()
         if len(t) != 6 or t[1] == 'ERROR':
             ctx.violation('alignedMalloc harness case "am %d %d %d %d" failed: %s' % (c + (o,)), {'case': list(c), 'cmd': 'echo "am %d %d %d %d" | %s' % (c + (exe,))})
@@ -190,7 +207,7 @@ def correspond(ctx):
         am_judged.append((c, (p, c[2], c[3], req, ret, recov, freed)))
     # ---- judge inside Coq (sharded, shards in parallel)
     import pf_common
-    shard_n = 2500
+    shard_n = 2500 if ctx.quick else 5000      # elaborating the literal case list dominates (about 1.5 ms per case)
     jobs = []
     for i in range(0, len(judged), shard_n):
         jobs.append(('judge_bm', ['(%d,%d,%s)' % (fn, v, dv.zlit(o)) for fn, v, o in judged[i:i + shard_n]]))
@@ -203,7 +220,7 @@ def correspond(ctx):
         sub.work, sub.cov = ctx.work, {}
         res = pf_common.coq_judge(sub, 'cases_%d' % k, IMPORTS, [(fnname, terms)], timeout=900)
         return res, sub.cov
-    with ThreadPoolExecutor(max_workers=6) as ex:
+    with ThreadPoolExecutor(max_workers=8) as ex:
         results = list(ex.map(one, range(len(jobs))))
     verdicts_bm, verdicts_am, coq_failed = [], [], False
     for (fnname, terms), (res, cov) in zip(jobs, results):
